@@ -1,6 +1,6 @@
 (* C02 -- Rendering terminates and cannot be stalled by short input (partial: see MANIFEST level text). *)
 From Rimu Require Import Base Unicode Regex RegexAnalysis RegexParse Str Types Tables Guards State Inline Block
-  Frame FrameBlock FrameInst OptionsLemmas MiscLemmas MoreLemmas Plain TableFacts.
+  Frame FrameBlock FrameInst OptionsLemmas MiscLemmas MoreLemmas Plain TableFacts FuelMono.
 
 (* every regular expression of the source has star height <= 1, except the first Block Attributes pattern *)
 Theorem C02_star_height :
@@ -49,6 +49,13 @@ Theorem C02_no_macro_definitions : forall n src s html s',
   s_mode s <> 0%Z -> Z.land (s_mode s) 8 = 0%Z -> doc_render n src s = Ok (html, s') -> s_macros s' = s_macros s.
 Proof. exact doc_render_macros. Qed.
 Print Assumptions C02_no_macro_definitions.
+
+(* the model's fuel is only a termination device: once render returns (a value or a failure) with some fuel, it returns exactly
+   the same with every larger fuel -- for every source, option values and session.  So the theorems stated "for every fuel" speak
+   about one result per input, and the only other outcome is the one that stands for unbounded recursion in the implementation *)
+Theorem C02_fuel_monotone : forall n m src o s, (n <= m)%nat -> api_render n src o s <> Fuel -> api_render m src o s = api_render n src o s.
+Proof. exact fuel_monotone. Qed.
+Print Assumptions C02_fuel_monotone.
 
 Example C02_ex : Nat.leb 60 (length all_regexes) = true.
 Proof. exact table_regex_count. Qed.
